@@ -255,12 +255,17 @@ def cleaningOrRolling (ro : Rollout) : Bool :=
 /-- **C03 / C10 / C05** — "release the workload from the BatchRelease" is left behind only when the BatchRelease is really
     gone: the clean-up cursor (and the reset of a superseded release) moves past `ReleaseWorkloadControl` only in a state
     without BatchRelease — never on the strength of having issued the Delete.  (A BatchRelease that is still terminating
-    would otherwise be taken for the next release's: same name, and with an unchanged rollout-id the same spec.) -/
+    would otherwise be taken for the next release's: same name, and with an unchanged rollout-id the same spec.)
+    The one other way the cursor leaves the task is backwards: deletion / disabling of a Progressing rollout starts the clean-up
+    over from an empty cursor. -/
 def releaseWaitsGone (w : World) (r : StepResult) : Bool :=
   match w.ro.sub, r.w.ro.sub with
   | some s, some s' =>
     if cleaningOrRolling w.ro ∧ ¬ r.err ∧ s.finStep = .releaseWorkloadControl ∧ s'.finStep ≠ .releaseWorkloadControl then
-      r.w.br.isNone
+      -- … or the clean-up is started over: a Progressing rollout that turns Terminating / Disabling in this reconcile gets an
+      -- empty cursor (fix "cursor reset"); the sequence that follows has `ReleaseWorkloadControl` as a task of its own
+      -- (`RV.Props.Release.restart_releases_again`), so the cursor has not moved *past* the task
+      r.w.br.isNone || (exitsProgressing w r && s'.finStep = .empty)
     else true
   | _, _ => true
 
